@@ -6,4 +6,5 @@ CONSTANTS
   Known = {}
   Tags <- TagsFromFile
 INVARIANT RoundTrip
+INVARIANT EmptyParts
 CHECK_DEADLOCK FALSE
